@@ -164,6 +164,36 @@ def fam_kernel_faults(ck, sc, i):
     return secrets_of(sh, ['psk-of-alice-73a9c1e5', 'psk-of-bob-0d4f8b26'], dh_log=S.W.dh_log), {'family': 'kernel-refusal', 'history': name, 'endpoint': e, 'k': k}, S.W.internal_errors
 
 
+def fam_startup_refusals(ck, sc, i):
+    """The kernel refuses the k-th request of a START-UP (flushes, policy installation): a daemon is restarted on the kernel of a finished history with that
+    refusal planted, with several PSK connections configured. Whether it comes up or gives up, nothing it logs shows a pre-shared key."""
+    k = i % 10
+    err = (-17, -22, -12, -1)[(i // 10) % 4]
+    sim, hub, peers = S.make_star(ck.seed * 53 + i, peers=2)
+    sim.acquire(peers[0], 0)
+    sim.drain()
+    hub.kernel.fault_plan[len(hub.kernel.requests) + k] = ('errno', err)
+    try:
+        hub.restart()
+        ck.count('startup_refusal.came_up')
+    except Exception as ex:
+        ck.count('startup_refusal.gave_up')
+        # what pyikev2.py would print for it
+        S.W.internal_errors.append({'type': 'startup', 'msg': f'{type(ex).__name__}: {ex}'})
+    hit = [r for r in hub.kernel.requests if r.get('fault')]
+    if hit:
+        ck.count('startup_refusal.injected')
+        ck.seen('startup_refusal.requests', hit[0]['msg']['name'] if hit[0]['msg'] else '?')
+    psks = set()
+    for c_ in hub.confdict.values():
+        for au in ('my_auth', 'peer_auth'):
+            if c_[au].get('psk'):
+                psks.add(c_[au]['psk'])
+    sh = SH.Shadow(S.W.dh_log, None, check_dh=False)
+    sh.feed(sim.wire)
+    return secrets_of(sh, sorted(psks), dh_log=S.W.dh_log), {'family': 'startup-refusal', 'k': k, 'errno': err}, S.W.internal_errors
+
+
 def fam_hostile(ck, sc, i):
     rng = ck.rng('host', i)
     s = walk.Scenario(ck.seed * 47 + i, [], dict(child_a={'encr': ['aes256'], 'integ': ['sha256'], 'dh': ['19'] if i % 2 else []}))
@@ -288,12 +318,12 @@ def fam_configuration_file(ck, sc, i):
     return secrets, {'family': 'configuration-file', 'kind': kind, 'file': text, 'exit': r.returncode}, [{'type': 'process-output', 'msg': ln} for ln in out.splitlines()]
 
 
-FAMILIES = [('success', fam_success), ('configuration', fam_configuration), ('configuration-file', fam_configuration_file), ('auth-failure', fam_impostor), ('mismatch', fam_mismatch), ('kernel-refusal', fam_kernel_faults), ('hostile+lossy', fam_hostile)]
+FAMILIES = [('success', fam_success), ('configuration', fam_configuration), ('configuration-file', fam_configuration_file), ('auth-failure', fam_impostor), ('mismatch', fam_mismatch), ('kernel-refusal', fam_kernel_faults), ('startup-refusal', fam_startup_refusals), ('hostile+lossy', fam_hostile)]
 
 
 def run(ck):
     thorough = ck.thorough()
-    per = {'success': 40, 'auth-failure': 120, 'mismatch': 40, 'kernel-refusal': 120, 'hostile+lossy': 60, 'configuration': 400, 'configuration-file': 48}
+    per = {'success': 40, 'auth-failure': 120, 'mismatch': 40, 'kernel-refusal': 120, 'hostile+lossy': 60, 'configuration': 400, 'configuration-file': 48, 'startup-refusal': 40}
     if thorough:
         per = {k: v * 60 for k, v in per.items()}
     n = 0
@@ -334,5 +364,6 @@ def verdict(ck):
     ck.floor('daemon start-ups on a file that must be refused, ended with an ERROR record', c['configuration_file.refused_with_an_error_record'], 30)
     ck.floor('configurations rejected with secrets in the file', c['configuration.rejected'], 100)
     ck.floor('configurations whose secret was read by YAML as a number, a date or binary', c['configuration.secret_that_yaml_read_as_a_non_string'], 20)
+    ck.floor('start-ups with a refused kernel request', c['startup_refusal.injected'], 20)
     ck.floor('distinct record templates seen', len(ck.sets['scan.templates']), 40)
     return None
